@@ -324,8 +324,7 @@ def show_obj(o, cls_id: int) -> str:
             continue
         d = defs[k]
         if v is None:
-            fields.append((k, "U"))
-            continue
+            continue            # canonical form: unset attributes are omitted
         fields.append((k, show_attr(v, d)))
     extra = []
     if hasattr(o, "additional_avps") and not isinstance(o, Message):
@@ -391,7 +390,30 @@ def show_header(h) -> str:
             f"{h.application_id} {h.hop_by_hop_identifier} {h.end_to_end_identifier}")
 
 
-def real(line: str) -> str:
+class _Timeout(BaseException):
+    pass
+
+
+def _on_alarm(signum, frame):
+    raise _Timeout()
+
+
+def real(line: str, budget_s: float = 10.0) -> str:
+    """Run one protocol line on the real code under a wall-clock guard, so a
+    non-terminating decoder shows up as `EXC Timeout` instead of hanging the check."""
+    import signal
+    old = signal.signal(signal.SIGALRM, _on_alarm)
+    signal.setitimer(signal.ITIMER_REAL, budget_s)
+    try:
+        return _real(line)
+    except _Timeout:
+        return "EXC Timeout"
+    finally:
+        signal.setitimer(signal.ITIMER_REAL, 0)
+        signal.signal(signal.SIGALRM, old)
+
+
+def _real(line: str) -> str:
     sd = side()
     toks = line.split(" ")
     cmd = toks[0]
